@@ -159,15 +159,32 @@ func TestC09(t *testing.T) {
 			}
 		}
 		nreq := rapid.IntRange(1, 6).Draw(t, "nreq")
-		slow := hx.TFDuration(tf) < time.Minute
+		slow := hx.TFDuration(tf) < 5*time.Minute
 		maxPerReq, compressible := 0, false
+		skip := func(s int64) bool { return tf == "1D" && jan1Slot(s) && hx.KFOpen("KF-08a") }
 		check := func(step string) {
 			got, err := in.QueryAll(b)
 			if err != nil {
 				t.Fatalf("%s: all-time query: %v", step, err)
 			}
-			if err := m.CheckVarAll(got); err != nil {
+			if err := m.CheckVarAll(got, skip); err != nil {
 				t.Fatalf("%s: %v", step, err)
+			}
+			if tf == "1D" && hx.KFOpen("KF-08a") {
+				seen := map[int64]bool{}
+				for _, e := range got.Epoch {
+					seen[hx.SlotStart(e, 24*time.Hour)] = true
+				}
+				done := map[int64]bool{}
+				for _, v := range m.Var {
+					if s := hx.SlotStart(v.TimeNs/1e9, 24*time.Hour); jan1Slot(s) && !done[s] {
+						done[s] = true
+						rec.Exclude("KF-08a")
+						if !seen[s] {
+							rec.KF("KF-08a", "1D records dated Jan 1 are not returned")
+						}
+					}
+				}
 			}
 		}
 		for q := 0; q < nreq; q++ {
